@@ -195,8 +195,8 @@ fn call_hook(s: &str) -> Result<Result<String, String>, (String, String)> {
 /// let host: Option<String> = request.headers().get(pavex::http::header::HOST)
 ///     .map(|h| pavex::http::uri::Authority::try_from(h.as_bytes()).ok())
 ///     .flatten()
-///     .map(|a| a.host()
-///         .trim_end_matches('.')      // line 334
+///     .map(|a| a.host())
+///     .map(|h| h.strip_suffix('.').unwrap_or(h)   // (one trailing dot; `trim_end_matches` before the fix)
 ///         .replace('.', "/")          // line 336
 ///         .chars().rev().collect()    // line 338
 ///     );
@@ -206,7 +206,10 @@ fn call_hook(s: &str) -> Result<Result<String, String>, (String, String)> {
 fn normalise_like_generated(host_header: &str) -> Option<String> {
     http::uri::Authority::try_from(host_header.as_bytes())
         .ok()
-        .map(|a| a.host().trim_end_matches('.').replace('.', "/").chars().rev().collect())
+        .map(|a| {
+            let h = a.host();
+            h.strip_suffix('.').unwrap_or(h).replace('.', "/").chars().rev().collect()
+        })
 }
 
 /// Category of the validator's diagnostic (for signatures/counters only).
